@@ -421,7 +421,7 @@ class StmtMixin:
         node = getattr(node, "_verif_ord_node", node)
         k = 0
         for n in ast.walk(cx.fn):
-            if isinstance(n, (ast.For, ast.While, ast.ListComp)):
+            if isinstance(n, (ast.For, ast.While, ast.ListComp)) or (isinstance(n, ast.GeneratorExp) and is_list_feed(cx.fn, n)):
                 if n is node:
                     return k
                 k += 1
@@ -506,11 +506,28 @@ class StmtMixin:
                     return [SV(a), SV(b)]
                 yield st1, IterSrc(z3.If(na < nb, na, nb), elem2, "zip")
             return
+        if isinstance(node, ast.Call) and ast.unparse(node.func) == "enumerate" and len(node.args) == 1 and not node.keywords:
+            # enumerate(seq): pairs (i, seq[i])
+            for st1, src in self.iter_source(st, node.args[0], cx):
+                if isinstance(src, Raise):
+                    yield st1, src
+                    continue
+                inner = src.elem
+
+                def pair(s, i, inner=inner):
+                    v = inner(s, i)
+                    if isinstance(v, list):
+                        raise Unsupported("enumerate over pairs")
+                    return [o.int_(i), v]
+                yield st1, IterSrc(src.n, pair, "enumerate(%s)" % src.desc)
+            return
         for st1, c in self.ev(st, node, cx):
             if isinstance(c, Raise):
                 yield st1, c
                 continue
             kind = o.refcls(st1, c, ("list", "tuple", "dict", "Element"))
+            if kind is None and c.e is not None and o.entails(st1, z3.Or(o.is_type(c.e, "ref:list"), o.is_type(c.e, "ref:tuple"))):
+                kind = "list"       # a list or a tuple, whichever: both are sequences with the same arrays
             is_element = kind == "Element"
             if is_element:
                 kind = "list"       # the children of an Element, in order; each is an Element
@@ -793,7 +810,55 @@ def _as_load(t):
     return t2
 
 
+def list_feed_call(n):
+    """`super().extend(<generator expression>)` / `super().__init__(<generator expression>)`: the built-in list consumes
+    the generator item by item, appending as it goes -- exactly the loop `for t in it: list.append(self, elt)`"""
+    return (isinstance(n, ast.Call) and isinstance(n.func, ast.Attribute) and n.func.attr in ("extend", "__init__")
+            and isinstance(n.func.value, ast.Call) and ast.unparse(n.func.value.func) == "super" and not n.func.value.args
+            and len(n.args) == 1 and not n.keywords and isinstance(n.args[0], ast.GeneratorExp))
+
+
+def is_list_feed(fn, g):
+    return any(list_feed_call(n) and n.args[0] is g for n in ast.walk(fn))
+
+
 class ComprehensionMixin:
+    def ev_list_feed(self, st, e, cx):
+        """see list_feed_call; the generator's ordinal selects the invariants of the contract"""
+        g = e.args[0]
+        if len(g.generators) != 1 or g.generators[0].is_async:
+            raise Unsupported("generator expression with several generators")
+        if not (cx.cls and self.src.is_subclass(cx.cls, "list")):
+            raise Unsupported("super().%s(generator) outside a list subclass" % e.func.attr)
+        gen = g.generators[0]
+        app = ast.Expr(ast.Call(ast.Attribute(ast.Call(ast.Name("super", ast.Load()), [], []), "append", ast.Load()), [g.elt], []))
+        body = app
+        for cond in reversed(gen.ifs):
+            body = ast.If(cond, [body], [])
+        loop = ast.For(gen.target, gen.iter, [body], [], None)
+        loop._verif_ord_node = g
+        for n in (app, body, loop):
+            ast.copy_location(n, e)
+        ast.fix_missing_locations(loop)
+        st = st.clone()
+        if e.func.attr == "__init__":
+            st.wr("$len", self.o.r(st.locals["self"]), z3.IntVal(0))      # list.__init__ empties the list first
+        saved = {n: st.locals.get(n) for n in self.assigned_names([gen.target])}
+        for f, out in self.st_For(st, loop, cx):
+            f = f.clone()
+            for n, sv in saved.items():
+                if sv is None:
+                    f.locals.pop(n, None)
+                else:
+                    f.locals[n] = sv
+            if out is None:
+                yield f, self.o.none()
+            elif isinstance(out, Raise):
+                yield f, out
+            else:
+                raise Unsupported("control flow out of a generator expression")
+
+
     """List comprehensions are executed as the loop they abbreviate:
         comp_result = []
         for <target> in <iterable>:
